@@ -39,7 +39,7 @@ def release_validity(r, prefix, with_flags=True):
         return INVALID, prefix + ".version:type"
     if "\n" in v:
         return UNSPEC, prefix + ".version:newline"
-    if not VERSION_RE.match(v):
+    if not VERSION_RE.match(v) or v.endswith("\n"):
         return INVALID, prefix + ".version:format"
     if not isinstance(r.get("short"), str):
         return INVALID, prefix + ".short:type"
@@ -61,7 +61,7 @@ def compose_validity(c):
         return INVALID, "compose.id:type"
     if not i:
         return INVALID, "compose.id:blank"
-    if not re.match(r".*\d{8}(\.nightly|\.n|\.ci|\.test|\.t)?(\.\d+)?", i):
+    if not re.match(r".*\d{8}(\.nightly|\.n|\.ci|\.test|\.t)?(\.\d+)?", i) or i.endswith("\n"):
         return INVALID, "compose.id:format"
     d = c.get("date")
     if not isinstance(d, str):
@@ -385,6 +385,13 @@ class CIMachine(FormatMachine):
             mv[f] = val
         return "ok"
 
+    def op_var_set_many(self, op):
+        """several fields of one variant assigned together (a rename: id and uid change in step)"""
+        r = "noop"
+        for f, val in sorted(op["fields"].items()):
+            r = self.op_var_set({"op": "var_set", "var": op["var"], "field": f, "value": val, "slot": op.get("slot", 0)})
+        return r
+
     def op_var_arches_inplace(self, op):
         """mutate the arch SET in place (no attribute assignment)"""
         s = self.slot(op)
@@ -415,6 +422,16 @@ class CIMachine(FormatMachine):
             return "noop"
         getattr(s.pool[vid].paths, op["cat"])[op["arch"]] = op["value"]
         s.model["vars"][vid]["paths"].setdefault(op["cat"], {})[op["arch"]] = op["value"]
+        return "ok"
+
+    def op_var_path_table(self, op):
+        """a whole path table assigned in one go (v.paths.os_tree = {...}, the style the class docstring shows)"""
+        s = self.slot(op)
+        vid = str(op.get("var"))
+        if s is None or vid not in s.pool:
+            return "noop"
+        setattr(s.pool[vid].paths, op["cat"], dict(op["table"]))
+        s.model["vars"][vid]["paths"][op["cat"]] = dict(op["table"])
         return "ok"
 
     # ---- C11: add ---------------------------------------------------------------------
